@@ -287,8 +287,13 @@ fn main() {
         wad_ops(&mut t, rng.i128_any(), rng.i128_any());
     }
     let scale = 1_000_000_000_000_000_000i128;
-    for &a in &[0, 1, -1, scale, -scale, 2 * scale, -2 * scale, scale + 1, scale - 1, scale / 2, 3 * scale / 2, 10 * scale, 1_000_000 * scale, i128::MAX, i128::MIN, 1 << 100] {
-        for n in (0..40).chain([63, 64, 65, 100, 126, 127, 128, 255, 256, 1000, 65535, 1 << 20, u32::MAX - 1, u32::MAX]) {
+    // every exponent up to 140 (the overflow boundary of each base lies in there: 2.0^67 fits, 2.0^68 does not), then the
+    // large ones; bases around 1, 2 (2.004 / 2.005: the last bases whose 67th power fits / does not fit), 3, 4, 7, 10
+    for &a in &[0, 1, -1, scale, -scale, 2 * scale, -2 * scale, scale + 1, scale - 1, scale / 2, -scale / 2, 3 * scale / 2, -3 * scale / 2,
+                2 * scale + 1, 2 * scale - 1, 2_004 * (scale / 1000), 2_005 * (scale / 1000), -2_004 * (scale / 1000), 3 * scale, -3 * scale,
+                4 * scale, 7 * scale, -7 * scale, 10 * scale, -10 * scale, 1_001 * (scale / 1000), 999 * (scale / 1000),
+                1_000_000 * scale, i128::MAX, i128::MIN, 1 << 100] {
+        for n in (0..=140).chain([255, 256, 1000, 65535, 1 << 20, u32::MAX - 1, u32::MAX]) {
             wad_pow(&mut t, a, n);
         }
     }
